@@ -333,7 +333,7 @@ class _Threader:
             return len(self.blocks) - 1
         # blocks between the assignment and the test are copied along when they only drop values and set
         # drop flags (constant stores to whole locals)
-        if any(not (s_["s"] == "assign" and not s_["pl"]["p"] and s_["rv"]["r"] == "use" and s_["rv"]["o"].get("k") is not None) for s_ in blk["st"]):
+        if any(not (s_["s"] == "assign" and not s_["pl"]["p"] and s_["rv"]["r"] == "use" and (s_["rv"]["o"].get("k") is not None or _whole_local(s_["rv"]["o"]) is not None)) for s_ in blk["st"]):
             return n
         known = flow_statements(blk, dict(known), self.untracked)
         if k == "goto":
